@@ -31,7 +31,7 @@ type C10Plan struct {
 	Phase string `json:"phase"` // req | resp
 	Msg   int    `json:"msg"`
 	Occur int    `json:"occur"`
-	Kind  string `json:"kind"` // none | mut | garbage | bomb | http
+	Kind  string `json:"kind"` // none | mut | garbage | bomb | http | dup
 	Ord   int    `json:"ord"`
 	// Wire: the position is an encrypted message and the corruption is applied
 	// to its COSE wrapper on the wire instead of to the plaintext inside.
@@ -146,6 +146,10 @@ func (p *c10) Prepare(t *testing.T, tier string, seed uint64) {
 				}
 				for g := 0; g < nb; g++ {
 					plans = append(plans, C10Plan{Seed: base.Seed, Key: f.Key, Enc: f.Enc, Proto: proto, Phase: pos.Phase, Msg: pos.Msg, Occur: pos.Occur, Wire: pos.Wire, Kind: "bomb", Ord: g})
+				}
+				if pos.Phase == "req" && !pos.inTunnel() {
+					plans = append(plans, C10Plan{Seed: base.Seed, Key: f.Key, Enc: f.Enc, Sql: fi == 0, Proto: proto, Phase: pos.Phase, Msg: pos.Msg, Occur: pos.Occur, Wire: pos.Wire, Kind: "dup"})
+					plans = append(plans, C10Plan{Seed: base.Seed, Key: f.Key, Enc: f.Enc, Proto: proto, Phase: pos.Phase, Msg: pos.Msg, Occur: pos.Occur, Wire: pos.Wire, Kind: "dup"})
 				}
 				if !pos.inTunnel() && !pos.Wire {
 					for hi := range c10HTTPFaults {
@@ -418,6 +422,15 @@ func c10Run(env *Env, pl *C10Plan, collect map[c10Pos][]byte, baseAlloc uint64) 
 			desc = c10HTTPFaults[pl.Ord%len(c10HTTPFaults)]
 			c10HTTP(desc, ev, otherTok)
 			ev.Fault("http:" + desc)
+			return
+		}
+		if pl.Kind == "dup" {
+			tampered = true
+			runtime.ReadMemStats(&ms0)
+			tamperLen = len(ev.Body)
+			desc = "request delivered twice"
+			ev.Dup = true
+			ev.Fault("dup_req")
 			return
 		}
 		ev.Body = mutate(ev.Body)
